@@ -218,6 +218,9 @@ Section RunProofs.
     apply G.
   Qed.
 
+  Lemma fan_nil : forall m n, fanin m (fanout n []) = [].
+  Proof. intros m n. destruct n as [|[|n]]; destruct m as [|[|m]]; reflexivity. Qed.
+
   Lemma loop_hits_limit : forall rec all, all <> [] -> forallb (forallb ok_node) all = true ->
     forall k cur, cur <> [] -> incl cur all ->
     steps F stream rec all true k cur [] false = GFail [new_graph_run_error (Leaf id_exceed)].
@@ -227,7 +230,7 @@ Section RunProofs.
     - destruct cur as [|st rest]; [contradiction|]. cbn [steps].
       assert (Hst : forallb ok_node st = true).
       { rewrite forallb_forall in Hok. apply Hok. apply Hincl. left. reflexivity. }
-      rewrite (ok_stage_fold rec st Hst).
+      rewrite (ok_stage_fold rec st Hst). rewrite !fan_nil.
       destruct rest as [|st' rest'].
       + apply IH; [exact Hne|apply incl_refl].
       + apply IH; [discriminate|]. intros x Hx. apply Hincl. right. exact Hx.
@@ -238,6 +241,8 @@ Section RunProofs.
     run_graph F stream (S d) g [] false = GFail [new_graph_run_error (Leaf id_exceed)].
   Proof.
     intros d g Hl Hne Hok. cbn [run_graph]. rewrite Hl.
+    replace (fanout (width_of_first (g_stages g)) []) with (@nil item)
+      by (destruct (width_of_first (g_stages g)) as [|[|n]]; reflexivity).
     apply loop_hits_limit; auto. apply incl_refl.
   Qed.
 End RunProofs.
@@ -265,7 +270,7 @@ Lemma tool_panic_is_error : forall stream ts i, In (TPanic i) ts ->
   exists es, exec_tools stream [] ts = NErr es /\ es <> [].
 Proof.
   intros stream ts i H. unfold exec_tools. destruct ts as [|t0 ts']; [contradiction|].
-  assert (E : (if stream then @nil err else []) = []) by (destruct stream; reflexivity). rewrite E.
+  assert (E : (if stream then @nil item else []) = []) by (destruct stream; reflexivity). rewrite E.
   destruct (tool0_panics stream t0); [eexists; split; [reflexivity|discriminate]|].
   destruct stream; cbn [negb].
   - destruct (first_tool_error true (wrap_stream StreamByInvoke) (t0 :: ts')) eqn:Ef.
